@@ -27,15 +27,28 @@ theorem static_sound {excludedFrom : Nat} {aliases : List (Nat × Nat)} {rows : 
     rw [List.mem_filterMap]
     exact ⟨r, hr, by simp [e]⟩
 
-/-- rows written for one target: every `(name, byte)` is a row of that interpreter's `opmap` -/
-def writtenRest (rows : List (Nat × Nat × Nat)) (py : List (Nat × Nat)) : List (Nat × Nat) :=
-  diff pairEq pairLt (rows.map fun r => (r.2.1, r.2.2)) py
+/-- rows written for one target, outside the recorded class `K` (variant `NOT_IMPLEMENTED`, id `ni`): `(CPython-3.v spelling of
+    the variant, byte)` -/
+def writtenPairs (ni : Nat) (aliases : List (Nat × Nat)) (rows : List (Nat × Nat × Nat)) : List (Nat × Nat) :=
+  rows.filterMap fun r => if Nat.beq r.2.1 ni then none else some (canonName aliases r.2.1, r.2.2)
 
-theorem written_sound {rows : List (Nat × Nat × Nat)} {py : List (Nat × Nat)}
-    (h : (writtenRest rows py).isEmpty = true) : ∀ r ∈ rows, (r.2.1, r.2.2) ∈ py := by
-  intro r hr
-  have h' : subset pairEq pairLt (rows.map fun r => (r.2.1, r.2.2)) py = true := h
-  exact subset_sound pairEq_sound h' _ (List.mem_map.mpr ⟨r, hr, rfl⟩)
+def writtenRest (ni : Nat) (aliases : List (Nat × Nat)) (rows : List (Nat × Nat × Nat)) (py : List (Nat × Nat)) : List (Nat × Nat) :=
+  diff pairEq pairLt (writtenPairs ni aliases rows) py
+
+theorem written_sound {ni : Nat} {aliases : List (Nat × Nat)} {rows : List (Nat × Nat × Nat)} {py : List (Nat × Nat)}
+    (h : (writtenRest ni aliases rows py).isEmpty = true) :
+    ∀ r ∈ rows, r.2.1 ≠ ni → (canonName aliases r.2.1, r.2.2) ∈ py := by
+  intro r hr hne
+  have h' : subset pairEq pairLt (writtenPairs ni aliases rows) py = true := h
+  refine subset_sound pairEq_sound h' _ ?_
+  unfold writtenPairs
+  rw [List.mem_filterMap]
+  refine ⟨r, hr, ?_⟩
+  have : Nat.beq r.2.1 ni = false := by
+    cases hb : Nat.beq r.2.1 ni with
+    | false => rfl
+    | true => exact absurd (Nat.eq_of_beq_eq_true hb) hne
+  simp [this]
 
 /-- `is_jump_op` classifies every written byte as the interpreter does -/
 def jumpsOk (isJump : Nat → Bool) (rel abs : List Nat) (rows : List (Nat × Nat × Nat)) : Bool :=
@@ -46,6 +59,30 @@ theorem jumps_sound {isJump : Nat → Bool} {rel abs : List Nat} {rows : List (N
   intro r hr
   have := List.all_eq_true.mp h r hr
   simpa using this
+
+/-- the same for a list of bare bytes -/
+def jumpsOkRaw (isJump : Nat → Bool) (rel abs : List Nat) (rows : List (Nat × Nat)) : Bool :=
+  rows.all fun r => isJump r.2 == pyIsJump rel abs r.2
+
+theorem jumpsRaw_sound {isJump : Nat → Bool} {rel abs : List Nat} {rows : List (Nat × Nat)}
+    (h : jumpsOkRaw isJump rel abs rows = true) : ∀ r ∈ rows, isJump r.2 = pyIsJump rel abs r.2 := by
+  intro r hr
+  have := List.all_eq_true.mp h r hr
+  simpa using this
+
+/-- bare-byte writes: the `(CPython name of the byte, byte)` pair is a row of the interpreter's opmap and of some erg enum -/
+def rawOk (raw py ergPairs : List (Nat × Nat)) : Bool :=
+  subset pairEq pairLt raw py && subset pairEq pairLt raw ergPairs
+
+theorem raw_sound {raw py : List (Nat × Nat)} {erg : List (Nat × Nat × Nat)}
+    (h : rawOk raw py (erg.map fun r => (r.2.1, r.2.2)) = true) :
+    ∀ p ∈ raw, p ∈ py ∧ ∃ r ∈ erg, (r.2.1, r.2.2) = p := by
+  intro p hp
+  simp only [rawOk, Bool.and_eq_true] at h
+  refine ⟨subset_sound pairEq_sound h.1 p hp, ?_⟩
+  have := subset_sound pairEq_sound h.2 p hp
+  obtain ⟨r, hr, e⟩ := List.mem_map.mp this
+  exact ⟨r, hr, e⟩
 
 /-- every arm has the interpreter's kind -/
 def armsOk (v : Nat) (rel abs back : List Nat) (arms : List (Nat × Nat)) : Bool :=
